@@ -883,6 +883,16 @@ class AI(object):
             return [(self.top_of(dtype(e)), s) for s in cur]
         return m(e, st, u)
 
+    def e_LambdaExpr(self, e, st, u):
+        """Creating a closure runs no code of the body (the body is followed where the closure is called); init-captures
+        are evaluated for their effects."""
+        cur = [st]
+        for c in kids(e):
+            if c.get('kind') in ('CXXRecordDecl', 'CompoundStmt'):
+                continue
+            cur = [s2 for s in cur for (_, s2) in self.eval(c, s, u)]
+        return [(TOP, s) for s in cur]
+
     def _wrap1(self, e, st, u):
         return self.eval(kids(e)[0], st, u)
 
